@@ -13,7 +13,8 @@ ENGINE = "H"
 TECHNIQUE = "complete enumeration of malformed set-ups and dictionary keys; ALL interleavings (70 schedules) of the operation lists of two independent Problems in one process; repeated and independent executions compared bit-for-bit"
 RULE = (
     "part reject: every documented error condition x every context (groups, list positions, values); part keys: every bogus key and every "
-    "documented key alone; part finite/repeat/mutate: every admissible configuration of the builder menu, run twice, built twice, user arrays "
+    "documented key alone; part finite/repeat/mutate: every admissible configuration of the builder menu (incl. the documented multi-section workflow with 1-4 user-supplied or "
+    "generated sections), run twice, built twice, every array reachable from the user's dictionaries copied BEFORE the first library call and "
     "compared bit-for-bit after setup/run/totals/check_partials; part interleave: ALL C(8,4)=70 interleavings of [setup, run, totals, run] "
     "of two independent Problems for three model pairs, each problem's results compared bit-for-bit with its isolated execution; "
     "non-trivial = distinct set-ups / schedules"
